@@ -265,7 +265,7 @@ def main():
             for (name, xs, ys, p) in samples:
                 idx = (r.randrange(shape[0]), r.randrange(shape[1]))
                 x = float(xs[idx])
-                y = float(ys[idx]) if ys is not None else 0.0
+                y = float(ys[idx]) if (ys is not None and name in BINARY) else 0.0
                 f = float(p[idx])
                 if coq_eligible(name, x, y, f):
                     pool.append((name, x, y, f))
